@@ -225,9 +225,18 @@ class Randomizer(RandIF):
                         f.dispose()
                         
                 if self.solve_fail_debug > 0:
+                    try:
+                        diagnostics = self.create_diagnostics(active_randsets)
+                    except Exception as e:
+                        # Diagnostics are best-effort: a problem producing them
+                        # must not mask the solve failure itself
+                        diagnostics = "Solve failure: diagnostics unavailable (%s)" % str(e)
+                        for rs in active_randsets:
+                            for f in rs.all_fields():
+                                f.dispose()
                     raise SolveFailure(
                         "solve failure",
-                        self.create_diagnostics(active_randsets))
+                        diagnostics)
                 else:
                     raise SolveFailure(
                         "solve failure",
